@@ -6,8 +6,11 @@ package main
 // user types embedding containers in the less travelled corners.
 
 import (
+	"encoding/hex"
 	"fmt"
+	"sort"
 	"strconv"
+	"strings"
 
 	at "github.com/DanielSvub/anytype"
 )
@@ -713,8 +716,47 @@ func (c *Ctx) derivedCorners(prop string) {
 			m.OMapK(holder, k, &Fn{Name: "id"})
 		}
 	case "C07":
-		// a derived value is a List/Object like any other for Equals' caller
+		// a derived value is a List/Object like any other for Equals' caller: as receiver, as argument, as an
+		// element of either side, one and two embedding levels deep
 		m.OEquals(rawO, m.NewObject(gvStr("k"), gvInt(1)))
+		plainL := m.NewList(gvInt(1), gvInt(2))
+		plainO := m.NewObject(gvStr("k"), gvInt(1))
+		ddL := m.Derive(dL)
+		ddO := m.Derive(dO)
+		for _, p := range [][2]string{{plainL, dL}, {dL, plainL}, {dL, dL}, {rawL, dL}, {dL, rawL}, {plainL, ddL}, {ddL, dL}, {ddL, ddL}} {
+			m.Equals(p[0], p[1])
+		}
+		for _, p := range [][2]string{{plainO, dO}, {dO, plainO}, {dO, dO}, {rawO, dO}, {dO, rawO}, {plainO, ddO}, {ddO, dO}, {ddO, ddO}} {
+			m.OEquals(p[0], p[1])
+		}
+		m.Equals(lholder, lholder)
+		cl := m.Clone(lholder)
+		m.Equals(lholder, cl)
+		m.Equals(cl, lholder)
+		m.OEquals(holder, holder)
+		co := m.OClone(holder)
+		m.OEquals(holder, co)
+		m.OEquals(co, holder)
+		// unequal content stays unequal whatever the embedding
+		m.Add(plainL, gvInt(3))
+		m.Equals(plainL, dL)
+		m.Equals(dL, plainL)
+		m.OSet(plainO, gvStr("z"), gvInt(0))
+		m.OEquals(plainO, dO)
+		m.OEquals(dO, plainO)
+	case "C05":
+		// a derived list is a List like any other as an argument
+		plainL := m.NewList(gvStr("p"))
+		ddL := m.Derive(dL)
+		for _, p := range [][2]string{{plainL, dL}, {dL, plainL}, {dL, dL}, {plainL, ddL}, {ddL, dL}} {
+			r := m.Concat(p[0], p[1])
+			if r != "" {
+				m.Add(r, gvInt(9))
+			}
+		}
+		m.Contains(lholder, m.RefGV(dL))
+		m.IndexOf(lholder, m.RefGV(dO))
+		m.Contains(lholder, m.RefGV(rawL))
 	}
 	c.St.Eval("derived-corners:"+prop, true)
 }
@@ -857,3 +899,201 @@ func (c *Ctx) fluentStates() {
 }
 
 var _ = at.NewList
+
+// rawBytes: strings that are not well-formed UTF-8 cannot be written on the wire (the model's strings are
+// sequences of code points), so the properties are monitored here, on the implementation alone: a Go string
+// stored in a container is a sequence of bytes, and every operation the properties speak about has to hand
+// those bytes back unchanged.  A failed monitor is an alarm record with the input in its text.
+func (c *Ctx) rawBytes(prop string) {
+	m := c.M
+	m.Case("raw-bytes")
+	vals := []string{"\xff", "a\x80b", "\xed\xa0\x80", "\xc3", "ok\xe2\x82", "\xf8\x88\x80\x80\x80", "x\xc0\xafy", "\xfe\xff\x00z"}
+	alarm := func(what string, args ...any) {
+		m.Alarm(prop, "raw-bytes: "+fmt.Sprintf(what, args...))
+	}
+	guard := func(what string, f func()) {
+		defer func() {
+			if r := recover(); r != nil {
+				alarm("%s panics: %v", what, r)
+			}
+		}()
+		f()
+	}
+	mkList := func() at.List {
+		l := at.NewList()
+		for _, v := range vals {
+			l.Add(v)
+		}
+		l.Add(at.NewList(vals[0], vals[1]), at.NewObject(vals[2], vals[3], "k", vals[4]))
+		return l
+	}
+	mkObj := func() at.Object {
+		o := at.NewObject()
+		for i, v := range vals {
+			o.Set(v, vals[(i+1)%len(vals)])
+		}
+		o.Set("nested", at.NewList(vals[0], at.NewObject(vals[1], vals[2])))
+		return o
+	}
+	// what a container holds, byte for byte, through the typed getters only
+	var dumpL func(l at.List) string
+	var dumpO func(o at.Object) string
+	dumpL = func(l at.List) string {
+		var sb strings.Builder
+		sb.WriteByte('[')
+		for i := 0; i < l.Count(); i++ {
+			switch l.TypeOf(i) {
+			case at.TypeString:
+				sb.WriteString("s" + hex.EncodeToString([]byte(l.GetString(i))))
+			case at.TypeList:
+				sb.WriteString(dumpL(l.GetList(i)))
+			case at.TypeObject:
+				sb.WriteString(dumpO(l.GetObject(i)))
+			default:
+				sb.WriteString(fmt.Sprint(l.Get(i)))
+			}
+			sb.WriteByte(' ')
+		}
+		sb.WriteByte(']')
+		return sb.String()
+	}
+	dumpO = func(o at.Object) string {
+		keys := o.Keys().StringSlice()
+		sort.Strings(keys)
+		var sb strings.Builder
+		sb.WriteByte('{')
+		for _, k := range keys {
+			sb.WriteString("k" + hex.EncodeToString([]byte(k)) + ":")
+			switch o.TypeOf(k) {
+			case at.TypeString:
+				sb.WriteString("s" + hex.EncodeToString([]byte(o.GetString(k))))
+			case at.TypeList:
+				sb.WriteString(dumpL(o.GetList(k)))
+			case at.TypeObject:
+				sb.WriteString(dumpO(o.GetObject(k)))
+			default:
+				sb.WriteString(fmt.Sprint(o.Get(k)))
+			}
+			sb.WriteByte(' ')
+		}
+		sb.WriteByte('}')
+		return sb.String()
+	}
+	l, o := mkList(), mkObj()
+	wantL, wantO := dumpL(mkList()), dumpO(mkObj())
+	if got := dumpL(l); got != wantL {
+		alarm("a list built twice from the same byte strings differs: %s vs %s", got, wantL)
+	}
+	// stored bytes come back: Get, GetString, Slice, StringSlice, Contains, IndexOf, Keys, KeyExists, KeyOf
+	guard("reading back", func() {
+		for i, v := range vals {
+			if l.GetString(i) != v || l.Get(i) != any(v) || l.Slice()[i] != any(v) {
+				alarm("element %d stored as %x reads back as %x", i, v, l.GetString(i))
+			}
+			if !l.Contains(v) || l.IndexOf(v) != i {
+				alarm("Contains/IndexOf of the stored bytes %x: %v %d", v, l.Contains(v), l.IndexOf(v))
+			}
+			if !o.KeyExists(v) || o.GetString(v) != vals[(i+1)%len(vals)] {
+				alarm("object key %x: exists=%v", v, o.KeyExists(v))
+			}
+		}
+		if ss := l.StringSlice(); len(ss) != len(vals) {
+			alarm("StringSlice has %d strings, want %d", len(ss), len(vals))
+		}
+	})
+	switch prop {
+	case "C08", "C07":
+		guard("Clone/Equals", func() {
+			cl, co := l.Clone(), o.Clone()
+			if !cl.Equals(l) || !l.Equals(cl) || !co.Equals(o) || !o.Equals(co) || !l.Equals(l) || !o.Equals(o) {
+				alarm("a clone of a container holding ill-formed strings is not Equal to its source (list %v %v, object %v %v)", cl.Equals(l), l.Equals(cl), co.Equals(o), o.Equals(co))
+			}
+			if dumpL(cl) != wantL || dumpO(co) != wantO {
+				alarm("Clone changed string bytes: %s / %s", dumpL(cl), dumpO(co))
+			}
+			cl.Replace(0, "changed")
+			cl.GetList(len(vals)).Add("more")
+			co.Set(vals[0], "changed")
+			if dumpL(l) != wantL || dumpO(o) != wantO {
+				alarm("a write to the clone shows in the source")
+			}
+			// two strings that differ only in an ill-formed byte are different
+			if at.NewList("a\x80").Equals(at.NewList("a\x81")) || at.NewList("\xff").Equals(at.NewList("�")) ||
+				at.NewObject("\xff", 1).Equals(at.NewObject("�", 1)) {
+				alarm("Equals identifies different byte strings")
+			}
+		})
+	}
+	// observers leave the bytes alone (every property that reads: C09 in particular)
+	guard("observers", func() {
+		_ = l.String()
+		_ = o.String()
+		_ = l.FormatString(2)
+		_ = o.FormatString(2)
+		_ = l.Equals(mkList())
+		_ = o.Equals(mkObj())
+		_ = l.NativeSlice()
+		_ = o.NativeDict()
+		_ = l.SubList(0, 3).String()
+		_ = l.Clone().String()
+		_ = o.Pluck(vals[0]).String()
+		_ = o.Values().String()
+		_ = o.Keys().String()
+		_ = l.Contains("nope")
+		l.ForEachString(func(string) {})
+		_ = l.FilterStrings(func(string) bool { return true }).String()
+		_ = l.MapStrings(func(s string) any { return s }).String()
+		_ = l.AllStrings()
+		_ = l.GetTF("#0")
+		_ = o.Dict()
+		if dumpL(l) != wantL || dumpO(o) != wantO {
+			alarm("an observer rewrote stored string bytes: %s / %s", dumpL(l), dumpO(o))
+		}
+	})
+	switch prop {
+	case "C13":
+		guard("native export", func() {
+			ns := l.NativeSlice()
+			for i, v := range vals {
+				if ns[i] != any(v) {
+					alarm("NativeSlice()[%d] = %x, stored %x", i, ns[i], v)
+				}
+			}
+			nd := o.NativeDict()
+			for i, v := range vals {
+				if nd[v] != any(vals[(i+1)%len(vals)]) {
+					alarm("NativeDict()[%x] = %x", v, nd[v])
+				}
+			}
+			if back := at.NewListFrom(ns); !back.Equals(l) {
+				alarm("NewListFrom(NativeSlice()) is not Equal to the list")
+			}
+			if back := at.NewObjectFrom(nd); !back.Equals(o) {
+				alarm("NewObjectFrom(NativeDict()) is not Equal to the object")
+			}
+		})
+	case "C05", "C06", "C12", "C17":
+		guard("mutators", func() {
+			l2 := mkList()
+			l2.Insert(0, "\x80").Reverse().Reverse().Delete(0)
+			if dumpL(l2) != wantL {
+				alarm("Insert/Reverse/Reverse/Delete changed string bytes: %s", dumpL(l2))
+			}
+			c1 := l2.SubList(0, len(vals)).Concat(at.NewList())
+			if c1.Count() != len(vals) || c1.GetString(1) != vals[1] {
+				alarm("SubList/Concat changed string bytes")
+			}
+			sorted := at.NewList(vals[0], vals[1], vals[3]).Sort()
+			if sorted.GetString(0) != vals[1] || sorted.GetString(1) != vals[3] || sorted.GetString(2) != vals[0] {
+				alarm("Sort of ill-formed strings is not bytewise: %x %x %x", sorted.GetString(0), sorted.GetString(1), sorted.GetString(2))
+			}
+			o2 := mkObj()
+			o2.Set("\x80", 1).Unset("\x80")
+			m2 := at.NewObject().Merge(o2)
+			if dumpO(o2) != wantO || dumpO(m2) != wantO {
+				alarm("Set/Unset/Merge changed string bytes: %s", dumpO(m2))
+			}
+		})
+	}
+	c.St.Eval("raw-bytes:"+prop, true)
+}
